@@ -19,7 +19,7 @@ func ZZ_C12_smoke() {
 		LockTtl:      10,
 	})
 	zzAssert(len(errs) == 1 && errs[0] == nil, "smoke.prewrite")
-	zzAssert(len(l.ents[store.getDB("")]) == 1, "smoke.one-lock")
+	zzAssert(len(l.all(store.getDB(""))) == 1, "smoke.one-lock")
 	got, err := store.Get([]byte("a"), r, kvrpcpb.IsolationLevel_SI, nil)
 	if r > s {
 		_, locked := err.(*ErrLocked)
